@@ -13,7 +13,7 @@
    The network theorems hold for every coefficient type (they only need the constant 0); the algebra is
    stated for Q and for any commutative ring.  The model is tied to /repo by the correspondence run. *)
 From Coq Require Import List Bool Arith ZArith QArith String Permutation Sorted Ring_theory Setoid.
-From ACN Require Import Base.Num Model.Current Model.Network Proofs.Current Proofs.Network.
+From ACN Require Import Base.Num Model.Current Model.Network Proofs.Current Proofs.Network Proofs.NetworkMore.
 Import ListNotations.
 Open Scope nat_scope.
 
@@ -95,6 +95,40 @@ Theorem C12_update_unknown_station : forall (A : Type) (zero : A) nm (c : curren
   update_constraint zero nm c l nn n = (Some "KeyError"%string, snd (remove_constraint nm n)).
 Proof. exact (@update_unknown_station). Qed.
 Print Assumptions C12_update_unknown_station.
+
+(* an operation that raises leaves the network exactly as it was — except update_constraint with a live name,
+   which has already removed the old constraint when add_constraint raises (previous theorem) *)
+Theorem C12_failed_unchanged : forall (A : Type) (zero : A) (o : op A) (n : net A) e,
+  fst (step zero o n) = Some e ->
+  snd (step zero o n) =
+  match o with
+  | OUpdate nm _ _ _ => if nmem nm (cnames n) then snd (remove_constraint nm n) else n
+  | _ => n
+  end.
+Proof. exact (@failed_unchanged). Qed.
+Print Assumptions C12_failed_unchanged.
+
+(* registration order is irrelevant: register the same stations in another order and apply the same constraint
+   operations — same live constraints, names, limits and outcomes; the matrices hold the same coefficient for
+   every (constraint, station) pair, only in different columns *)
+Theorem C12_registration_order_irrelevant : forall (A : Type) (zero : A)
+    (regs regs' : list (station * Q * Q)) (ops : list (op A)),
+  NoDup (reg_ids regs) -> Permutation regs regs' -> forallb (no_register (A := A)) ops = true ->
+  let n := run zero (map reg_op regs ++ ops) net0 in
+  let n' := run zero (map reg_op regs' ++ ops) net0 in
+  let g := grun (map reg_op regs ++ ops) (ghost0 (A := A)) in
+  let g' := grun (map reg_op regs' ++ ops) (ghost0 (A := A)) in
+  stations n = reg_ids regs /\ stations n' = reg_ids regs' /\
+  g_live g = g_live g' /\ g_ever g = g_ever g' /\
+  cnames n = cnames n' /\ mags n = mags n' /\
+  (forall o, no_register o = true -> fst (step zero o n) = fst (step zero o n')) /\
+  (forall m m' i k k' s,
+      cmat n = Some m -> cmat n' = Some m' ->
+      nth_error (stations n) k = Some s -> nth_error (stations n') k' = Some s ->
+      i < List.length (cnames n) ->
+      nth k (nth i m []) None = nth k' (nth i m' []) None).
+Proof. exact (@registration_order_irrelevant). Qed.
+Print Assumptions C12_registration_order_irrelevant.
 
 (* ===== Current algebra ===== *)
 Open Scope Q_scope.
@@ -203,6 +237,17 @@ Theorem C12_subset_values : forall (A : Type) (zero : A) (add mul : A -> A -> A)
   end.
 Proof. exact (@cc_values). Qed.
 Print Assumptions C12_subset_values.
+
+(* and the registration order does not change any aggregate current: give each network the schedule rows in
+   ITS station order (xf s = row of station s) and the answers agree (numbers up to ==, same exception) *)
+Theorem C12_aggregate_order_irrelevant : forall (regs regs' : list (station * Q * Q)) (ops : list (op Q))
+    w (xf : station -> list Q) C T,
+  NoDup (reg_ids regs) -> Permutation regs regs' -> forallb (no_register (A := Q)) ops = true ->
+  let n := run 0%Q (map reg_op regs ++ ops) net0 in
+  let n' := run 0%Q (map reg_op regs' ++ ops) net0 in
+  res_equiv (qcc (sched_for w xf (stations n)) C T n) (qcc (sched_for w xf (stations n')) C T n').
+Proof. exact aggregate_order_irrelevant. Qed.
+Print Assumptions C12_aggregate_order_irrelevant.
 
 (* ===== registration guard =====
    The code tests `self.constraint_matrix is not None`.  Once an add_constraint / update_constraint has been
